@@ -14,11 +14,21 @@ run, or whose forbidden path did, makes the check inconclusive.  A "Disabling
 HW_... due to failed self-test" warning (captured by wrapping
 libcperciva_warnx) is a violation: the accelerated path computed a different
 function on the library's own self-test vector.
+
+"Self-test fails" variants (driver flag --fail-selftest=<impl>,...): the CPU
+reports the feature, the library is linked unchanged, but the library's own
+start-up self-test of that implementation fails (the --wrap wrapper of the
+accelerated entry point answers the self-test call wrongly, once; see
+harness/c03_accel.c).  There the warning is expected; the outputs must still
+equal the references and the other variants, and the wrappers must not see a
+single call of the disabled implementation afterwards, from any operation
+(AES-CTR included): otherwise `fallback-inconsistent:<impl>` is reported.
 """
 import hashlib
 import hmac
 import os
 import random
+import re
 import threading
 import zlib
 
@@ -36,8 +46,19 @@ HOSTFLAG = {'aesni': 'aes', 'shani': 'sha_ni', 'sse2': 'sse2', 'sse42': 'sse4_2'
 BASE = ['X86_CPUID', 'X86_CPUID_COUNT']
 FULL = BASE + ['X86_SHANI', 'X86_SSSE3', 'X86_SSE2', 'X86_SSE42', 'X86_SSE42_64', 'X86_AESNI']
 M64 = (1 << 64) - 1
+IMPLS = ['shani', 'sse2', 'sse42', 'aesni']
+# name in the library's "Disabling HW_... due to failed self-test" warning
+HWNAME = {'shani': 'HW_X86_SHANI', 'sse2': 'HW_X86_SSE2', 'sse42': 'HW_X86_CRC32',
+          'aesni': 'HW_X86_AESNI'}
+IMPL_OF_HW = {v: k for k, v in HWNAME.items()}
+ENTRY = {'shani': 'SHA256_Transform_shani', 'sse2': 'SHA256_Transform_sse2',
+         'sse42': 'CRC32C_Update_SSE42',
+         'aesni': 'crypto_aes_key_expand_aesni / crypto_aes_encrypt_block_aesni / '
+                  'crypto_aesctr_aesni_stream'}
 COUNTERS = ['shani', 'sse2', 'sse42', 'aesni_kx', 'aesni_blk', 'aesni_ctr', 'ossl_key',
-            'ossl_enc', 'stub_detect', 'sse42_short', 'warnings']
+            'ossl_enc', 'stub_detect', 'sse42_short', 'warnings'] + \
+    ['inj_' + i for i in IMPLS] + ['after_' + i for i in IMPLS]
+MARKER = re.compile(r'C03-USED-AFTER-DISABLE((?: [a-z0-9]+:\w+)+) disabled=(\S+)')
 
 
 def sig(*a):
@@ -59,33 +80,45 @@ def host_flags():
 
 
 # ---- variants -----------------------------------------------------------------
-def expected_paths(cpu, stubs, host):
+def expected_paths(cpu, stubs, host, fails=()):
+    """What the library must select.  `fails` = implementations whose
+    start-up self-test fails although the CPU reports them; 'failed' in the
+    result = those of them whose self-test the library actually reaches."""
     def present(feat):
         if feat in stubs:
             return False
         gate = 'X86_CPUID_COUNT' if feat == 'shani' else 'X86_CPUID'
         return gate in cpu and HOSTFLAG[feat] in host
-    if 'X86_SHANI' in cpu and 'X86_SSSE3' in cpu and present('shani') and present('ssse3'):
+    failed = []
+
+    def passes(impl):
+        if impl in fails:
+            failed.append(impl)
+            return False
+        return True
+    if 'X86_SHANI' in cpu and 'X86_SSSE3' in cpu and present('shani') and present('ssse3') \
+            and passes('shani'):
         sha = 'shani'
-    elif 'X86_SSE2' in cpu and present('sse2'):
+    elif 'X86_SSE2' in cpu and present('sse2') and passes('sse2'):
         sha = 'sse2'
     else:
         sha = 'soft'
-    if 'X86_SSE42' in cpu and present('sse42'):
+    if 'X86_SSE42' in cpu and present('sse42') and passes('sse42'):
         crc = 'sse42-64' if 'X86_SSE42_64' in cpu else 'sse42-32'
     else:
         crc = 'soft'
-    aes = 'aesni' if 'X86_AESNI' in cpu and present('aesni') else 'soft'
-    return {'sha': sha, 'crc': crc, 'aes': aes}
+    aes = 'aesni' if 'X86_AESNI' in cpu and present('aesni') and passes('aesni') else 'soft'
+    return {'sha': sha, 'crc': crc, 'aes': aes, 'failed': failed}
 
 
 def all_variants(host):
     """-> (variants, skipped).  variant = dict(name, cpu, stubs, expect)."""
     out = []
 
-    def add(name, cpu, stubs=()):
-        out.append({'name': name, 'cpu': list(cpu), 'stubs': list(stubs),
-                    'expect': expected_paths(cpu, stubs, host)})
+    def add(name, cpu, stubs=(), fails=()):
+        out.append({'name': name, 'cpu': list(cpu), 'stubs': list(stubs), 'fails': list(fails),
+                    'args': ['--fail-selftest=' + ','.join(fails)] if fails else [],
+                    'expect': expected_paths(cpu, stubs, host, fails)})
 
     # (a) every compile-time subset
     for shani in (0, 1):
@@ -122,6 +155,20 @@ def all_variants(host):
     add('build[aesni]-absent[aesni]', BASE + ['X86_AESNI'], ['aesni'])
     # (c) the real detectors without CPUID support answer "absent" themselves
     add('full-without-cpuid', [c for c in FULL if c not in BASE])
+    # (d) compiled in, the CPU says "present", but the library's own start-up
+    # self-test of the implementation fails: it must fall back, consistently
+    # for every operation (the executables are those of (a)/(b), started with
+    # --fail-selftest=...)
+    add('full-selftest-fails[aesni]', FULL, fails=['aesni'])
+    add('full-selftest-fails[shani]', FULL, fails=['shani'])
+    add('full-selftest-fails[shani+sse2]', FULL, fails=['shani', 'sse2'])
+    add('full-selftest-fails[sse42]', FULL, fails=['sse42'])
+    add('full-selftest-fails[shani+sse2+sse42+aesni]', FULL, fails=['shani', 'sse2', 'sse42', 'aesni'])
+    add('full-absent[shani]-selftest-fails[sse2]', FULL, ['shani'], fails=['sse2'])
+    add('build[shani]-selftest-fails[shani]', BASE + ['X86_SHANI', 'X86_SSSE3'], fails=['shani'])
+    add('build[sse2]-selftest-fails[sse2]', BASE + ['X86_SSE2'], fails=['sse2'])
+    add('build[sse42_32]-selftest-fails[sse42]', BASE + ['X86_SSE42'], fails=['sse42'])
+    add('build[aesni]-selftest-fails[aesni]', BASE + ['X86_AESNI'], fails=['aesni'])
     keep, skipped = [], []
     for v in out:
         need = set()
@@ -133,6 +180,9 @@ def all_variants(host):
         missing = sorted(f for f in need if HOSTFLAG[f] not in host)
         if missing:
             skipped.append('%s (host CPU lacks %s)' % (v['name'], ','.join(missing)))
+        elif sorted(v['fails']) != sorted(v['expect']['failed']):
+            skipped.append('%s (the self-test of %s would not be reached)' % (
+                v['name'], ','.join(sorted(set(v['fails']) - set(v['expect']['failed'])))))
         else:
             keep.append(v)
     return keep, skipped
@@ -222,6 +272,12 @@ def build(ctx, variants):
     cache = ObjCache(os.path.join(ctx.tmp, 'objcache'))
     jobs, index = [], []
     libsrcs = SRCS + ['cpusupport/cpusupport_x86_%s.c' % f for f in DETECTORS]
+    # the "self-test fails" variants run the executable of the variant with
+    # the same CPUSUPPORT_* list and detectors (the failure is a run-time flag)
+    allv, first = variants, {}
+    for v in allv:
+        first.setdefault((tuple(v['cpu']), tuple(v['stubs'])), v)
+    variants = list(first.values())
     for vi, v in enumerate(variants):
         base = b0.base_flags('asan', v['cpu'])        # writes the config header
         gnu = [f for f in base if f != '-std=c99'] + ['-std=gnu99']
@@ -245,9 +301,12 @@ def build(ctx, variants):
                      threads=core.NCPU)
     for v, e in zip(variants, exes):
         v['exe'] = e
+    for v in allv:
+        v['exe'] = first[(tuple(v['cpu']), tuple(v['stubs']))]['exe']
     ctx.cov['build'] = {'translation_units_requested': cache.requests,
-                        'distinct_after_preprocessing': cache.compiled}
-    return variants
+                        'distinct_after_preprocessing': cache.compiled,
+                        'executables': len(variants)}
+    return allv
 
 
 # ---- workload -------------------------------------------------------------------
@@ -292,6 +351,64 @@ def rand_partition(rnd, n, thr):
 def rand_nonce(rnd):
     return rnd.choice([0, M64, 1 << 63, 0xff00000000000000, rnd.getrandbits(64),
                        rnd.getrandbits(64)])
+
+
+LONG_SHAPES = ['exact256', 'low-byte-not-smaller', 'one-wrap', 'two-wraps', 'portable-first',
+               'mid-block', 'long-twice']
+
+
+def subblock_calls(rnd, total):
+    """Calls of 0..15 bytes (0-length calls included) that cover `total` bytes."""
+    parts, left = [], total
+    while left > 0:
+        c = min(left, rnd.choice([0, 1, 2, 3, 5, 7, 8, 9, 11, 13, 15, 15, rnd.randrange(16)]))
+        parts.append(c)
+        left -= c
+    return parts
+
+
+def long_ctr_plan(rnd, shape):
+    """-> (parts, index of the long call).  A stream that is already in use
+    (its counter block holds a non-trivial counter), then ONE call that covers
+    >= 256 whole blocks (the low counter byte wraps inside the call), then
+    calls of < 16 bytes, 0-length calls and a tail: the bulk code hands its
+    counter over to the portable block code, and (before the long call, and
+    again behind the sub-block calls) the portable code to the bulk code."""
+    r = rnd.randrange
+    if shape == 'exact256':             # low byte comes back to the same value
+        pre, nb, frac = rnd.choice([[32], [16], [16, 16, 16], [5, 11, 16]]), 256, 0
+    elif shape == 'low-byte-not-smaller':
+        pre, nb, frac = rnd.choice([[32], [17, 15], [16]]), 256 + r(0, 200), rnd.choice([0, 5, r(16)])
+    elif shape == 'one-wrap':
+        pre = rnd.choice([[16], [32], [3, 13, 16], [48], [64, 0, 16], [r(16, 100)]])
+        nb, frac = r(256, 512), r(16)
+    elif shape == 'two-wraps':          # >= 512 whole blocks, up to 20000 bytes
+        pre = rnd.choice([[16], [32, 16], [7, 9], [r(16, 400)]])
+        nb, frac = r(512, 1249), r(16)
+    elif shape == 'portable-first':     # several blocks made by sub-block calls first
+        pre = subblock_calls(rnd, 16 * r(1, 5))
+        nb, frac = r(256, 700), r(16)
+    elif shape == 'mid-block':          # the long call starts and ends inside a block
+        pre = subblock_calls(rnd, 16 * r(0, 3) + r(1, 16))
+        nb, frac = r(256, 600), r(1, 16)
+        frac += 16 - sum(pre) % 16      # completes the open block first
+    else:                               # 'long-twice'
+        pre = rnd.choice([[16], [32], [5, 11]])
+        nb, frac = r(256, 400), r(16)
+    parts = list(pre)
+    at = len(parts)
+    parts.append(16 * nb + frac)
+    # portable code continues from the counter the bulk call left behind
+    parts += subblock_calls(rnd, 16 * r(2, 6) + r(16))
+    k = rnd.randrange(4)
+    if shape == 'long-twice' or k == 0:
+        parts.append(16 * r(256, 300) + r(16))              # portable -> bulk, long again
+        parts += subblock_calls(rnd, 16 * r(1, 4) + r(16))
+    elif k == 1:
+        parts.append(r(16, 200))                            # portable -> bulk, short
+        parts += subblock_calls(rnd, 16 * r(1, 3) + r(16))
+    parts += [0, r(1, 40)]                                  # 0-length call and a tail
+    return parts, at
 
 
 def gen_cases(seed, tier, shard, nshards):
@@ -406,6 +523,20 @@ def gen_cases(seed, tier, shard, nshards):
             add('ctr', 'S %d %d %s %d %s %s %d' % (rnd.randrange(16), rnd.randrange(16), key.hex(),
                                                    nonce, core.hx(data), pstr(p), inpl), '',
                 sig('S256', len(key), n, len(p), cut))
+    # streams already in use with ONE call of >= 256 whole blocks (4 KiB ..
+    # 20000 bytes), followed by sub-block calls, 0-length calls and a tail
+    shapes = LONG_SHAPES if tier == 'quick' else LONG_SHAPES * 12
+    for si, shape in enumerate(shapes):
+        p, at = long_ctr_plan(rnd, shape)
+        n = sum(p)
+        key = rbytes(rnd, rnd.choice([16, 32]))
+        data = rbytes(rnd, n)
+        nonce = rand_nonce(rnd)
+        inpl = rnd.randrange(2)
+        add('ctr', 'S %d %d %s %d %s %s %d' % (rnd.randrange(16), rnd.randrange(16), key.hex(),
+                                               nonce, core.hx(data), pstr(p), inpl), '',
+            sig('SL', shape, len(key), at, p[at] >> 12, sum(p[:at]) % 16, p[at] % 16,
+                len(p) - at, inpl))
     return cases
 
 
@@ -417,6 +548,15 @@ MINI = ['H 3 %s 5,64,1,70' % ('ab' * 140), 'C 1 %s 3,20,2,9' % ('cd' * 34),
 def impl_of(kind, expect):
     return expect['sha'] if kind in ('sha256', 'hmac') else \
         expect['crc'] if kind == 'crc32c' else expect['aes']
+
+
+def situation_of(kind, expect):
+    """Implementation that runs, plus the ones that were disabled at start-up
+    because their self-test failed (for distinct counting only)."""
+    fam = ('shani', 'sse2') if kind in ('sha256', 'hmac') else \
+        ('sse42',) if kind == 'crc32c' else ('aesni',)
+    failed = [f for f in expect.get('failed', ()) if f in fam]
+    return impl_of(kind, expect) + ''.join(' after-failed-' + f for f in failed)
 
 
 def short(s):
@@ -487,15 +627,31 @@ def run_variants(variants, cases, timeout=1200):
         for i, c in enumerate(cases):
             d = dict(c)
             d['idx'] = i
-            d['sig'] = sig(impl_of(c['kind'], v['expect']), c['sig'])
+            d['sig'] = sig(situation_of(c['kind'], v['expect']), c['sig'])
             d['meta'] = {'variant': v['name']}
             mine.append(d)
         mine.append({'kind': 'counters', 'line': 'Z', 'expect': '', 'sig': 0, 'nt': False,
                      'idx': len(cases), 'meta': {'variant': v['name']}})
-        r = core.line_shard(v['exe'], mine, judge=judge_for(v, base, diffs, zbox), timeout=timeout)
+        r = core.line_shard(v['exe'], mine, judge=judge_for(v, base, diffs, zbox), timeout=timeout,
+                            args=v.get('args', ()))
         res['evals'] += r['evals'] - len(zbox)
         res['sigs'] |= r['sigs']
         res['alarms'] += r['alarms']
+        # a process that died (sanitizer report, assert) after it had called a
+        # disabled implementation says so in the last line of its stderr
+        for (k, case, w) in r['alarms']:
+            m = MARKER.search(w if isinstance(w, str) else '')
+            if not m:
+                continue
+            warned = m.group(2).split(',')
+            for tok in m.group(1).split():
+                impl, fn = tok.split(':')
+                if impl in v.get('fails', ()) and HWNAME[impl] in warned:
+                    res['alarms'].append((
+                        'fallback-inconsistent:' + impl, case,
+                        'variant %s: the library printed "Disabling %s due to failed self-test" '
+                        'and afterwards still called %s; the process then died with %s'
+                        % (v['name'], HWNAME[impl], fn, k)))
         cnt = res['counters'].setdefault(v['name'], {'procs': 0, 'aligns': 0, 'intr': set()})
         for z in zbox:
             d = parse_z(z)
@@ -506,6 +662,7 @@ def run_variants(variants, cases, timeout=1200):
             cnt['intr'].add(d.get('intr'))
             if d.get('disabled', '-') != '-':
                 res['disabled'].append((v['name'], d['disabled']))
+                cnt.setdefault('disabled', set()).update(d['disabled'].split(','))
     # line by line across variants (library output only)
     for i in sorted(diffs):
         c = cases[i]
@@ -536,20 +693,48 @@ def check_paths(ctx, variants, counters):
             continue
         S = c['procs']
         e = v['expect']
+        fails = v.get('fails', [])
+        warned = c.get('disabled', set())
         bad = []
+        # implementations whose self-test was made to fail: the only calls
+        # allowed are the failed self-test calls themselves
+        for f in fails:
+            if not c.get('inj_' + f, 0):
+                bad.append('no self-test call of %s was seen, no failure injected' % f)
+            elif HWNAME[f] not in warned:
+                bad.append('the library did not report the failed self-test of %s' % f)
+            if c.get('after_' + f, 0):
+                if HWNAME[f] in warned:
+                    used = {'aesni_kx': c['aesni_kx'] - c.get('inj_aesni', 0),
+                            'aesni_blk': c['aesni_blk'], 'aesni_ctr': c['aesni_ctr']} \
+                        if f == 'aesni' else {f: c[f] - c.get('inj_' + f, 0)}
+                    ctx.alarm('fallback-inconsistent:' + f,
+                              {'line': 'Z', 'kind': 'counters', 'expect': '',
+                               'meta': {'variant': v['name']}},
+                              'variant %s: the library printed "Disabling %s due to failed '
+                              'self-test" and afterwards still called %s %d times (%s); it must '
+                              'fall back for every operation'
+                              % (v['name'], HWNAME[f], ENTRY[f], c['after_' + f],
+                                 ', '.join('%s=%d' % kv for kv in sorted(used.items()))))
+                else:
+                    bad.append('%s ran %d times after an injected self-test failure that the '
+                               'library did not report' % (f, c['after_' + f]))
+        for f in IMPLS:
+            if f not in fails and (c.get('inj_' + f, 0) or c.get('after_' + f, 0)):
+                bad.append('self-test failure of %s injected in a variant that must not' % f)
         want_shani = e['sha'] == 'shani'
         want_sse2 = e['sha'] == 'sse2'
         if want_shani and not c['shani'] > S:
             bad.append('SHA256_Transform_shani ran %d times (self-tests: %d)' % (c['shani'], S))
-        if not want_shani and c['shani']:
+        if not want_shani and c['shani'] and 'shani' not in fails:
             bad.append('SHA256_Transform_shani ran %d times but must not' % c['shani'])
         if want_sse2 and not c['sse2'] > S:
             bad.append('SHA256_Transform_sse2 ran %d times (self-tests: %d)' % (c['sse2'], S))
-        if not want_sse2 and c['sse2']:
+        if not want_sse2 and c['sse2'] and 'sse2' not in fails:
             bad.append('SHA256_Transform_sse2 ran %d times but must not' % c['sse2'])
         if e['crc'] != 'soft' and not c['sse42'] > S:
             bad.append('CRC32C_Update_SSE42 ran %d times (self-tests: %d)' % (c['sse42'], S))
-        if e['crc'] == 'soft' and c['sse42']:
+        if e['crc'] == 'soft' and c['sse42'] and 'sse42' not in fails:
             bad.append('CRC32C_Update_SSE42 ran %d times but must not' % c['sse42'])
         if e['aes'] == 'aesni':
             if not (c['aesni_kx'] > 2 * S and c['aesni_blk'] > 2 * S and c['aesni_ctr'] > 0):
@@ -560,7 +745,7 @@ def check_paths(ctx, variants, counters):
             if c['intr'] != {'1'}:
                 bad.append('crypto_aes_can_use_intrinsics() = %s' % sorted(c['intr']))
         else:
-            if c['aesni_kx'] or c['aesni_blk'] or c['aesni_ctr']:
+            if (c['aesni_kx'] or c['aesni_blk'] or c['aesni_ctr']) and 'aesni' not in fails:
                 bad.append('AES-NI entry points ran (%d/%d/%d) but must not'
                            % (c['aesni_kx'], c['aesni_blk'], c['aesni_ctr']))
             if not (c['ossl_enc'] > 2 * S and c['ossl_key'] > 2 * S):
@@ -573,6 +758,11 @@ def check_paths(ctx, variants, counters):
             'intended': '%s/%s/%s' % (e['sha'], e['crc'], e['aes']),
             'calls': {k: c.get(k, 0) for k in COUNTERS if c.get(k, 0)},
             'processes': S}
+        if fails:
+            table[v['name']]['selftest_made_to_fail'] = fails
+            table[v['name']]['expected_warnings_seen'] = sorted(
+                w for w in warned if IMPL_OF_HW.get(w) in fails)
+            table[v['name']]['calls_after_disable'] = sum(c.get('after_' + f, 0) for f in fails)
         for b in bad:
             ctx.note_inconclusive('variant %s (intended %s): %s' % (v['name'], table[v['name']]['intended'], b))
     return table
@@ -580,6 +770,7 @@ def check_paths(ctx, variants, counters):
 
 def finish(ctx, variants, skipped, res):
     core.merge(ctx, res)
+    byname = {v['name']: v for v in variants}
     counters = {}
     for r in res:
         for name, c in r['counters'].items():
@@ -589,10 +780,15 @@ def finish(ctx, variants, skipped, res):
                     t[k] |= val
                 elif k == 'intr':
                     t[k] |= val
+                elif k == 'disabled':
+                    t.setdefault(k, set()).update(val)
                 else:
                     t[k] = t.get(k, 0) + val
         for name, which in r['disabled']:
             for w in which.split(','):
+                if IMPL_OF_HW.get(w) in byname.get(name, {}).get('fails', ()):
+                    ctx.count('expected_selftest_warnings')     # injected by the harness
+                    continue
                 ctx.alarm('selftest-disabled:' + w,
                           {'line': 'Z', 'kind': 'counters', 'expect': '', 'meta': {'variant': name}},
                           'variant %s printed "Disabling %s due to failed self-test": the '
@@ -601,6 +797,7 @@ def finish(ctx, variants, skipped, res):
     ctx.cov['variants'] = check_paths(ctx, variants, counters)
     ctx.cov['skipped_variants'] = skipped
     ctx.count('variants_run', len(variants))
+    ctx.count('variants_selftest_fails', sum(1 for v in variants if v.get('fails')))
     for p in ('shani', 'sse2', 'soft'):
         ctx.count('variants_sha256_' + p, sum(1 for v in variants if v['expect']['sha'] == p))
     for p in ('sse42-64', 'sse42-32', 'soft'):
@@ -610,7 +807,7 @@ def finish(ctx, variants, skipped, res):
 
 
 def slim_variants(variants):
-    return [{k: v[k] for k in ('name', 'exe', 'expect')} for v in variants]
+    return [{k: v[k] for k in ('name', 'exe', 'expect', 'fails', 'args')} for v in variants]
 
 
 def run(ctx):
@@ -633,14 +830,36 @@ def run(ctx):
         'one seeded workload (SHA-256 streaming/one-shot, HMAC-SHA256, CRC32C, AES blocks, AES-CTR; '
         'buffer offsets 0..15 from a 16-byte boundary; every CRC length 0..40 x every alignment; '
         'every CTR length 0..40; SHA lengths around 64-byte blocks; calls alternating below/above '
-        'the 8-byte (CRC), 16-byte (CTR), 64-byte (SHA) thresholds; CTR streams across block 256) '
-        'is executed by every build variant; each answer is compared with hashlib/hmac, the CRC '
-        'algebra and refaes, and with every other variant.  evaluations = answers judged, summed '
-        'over variants; distinct = distinct (implementation that ran, operation, lengths, '
+        'the 8-byte (CRC), 16-byte (CTR), 64-byte (SHA) thresholds; CTR streams across block 256; '
+        'CTR streams already in use (a few small calls first) that then contain ONE call of >= 256 '
+        'whole blocks - 4096..20000 bytes, the low counter byte wraps once or twice inside the call, '
+        'shapes ' + ', '.join(LONG_SHAPES) + ' - followed by calls of < 16 bytes, 0-length calls, '
+        'sometimes a second bulk call, and a tail, so that the bulk code hands its counter to the '
+        'portable block code and back) '
+        'is executed by every variant; each answer is compared with hashlib/hmac, the CRC '
+        'algebra and refaes, and with every other variant.  Variants: (a) every compile-time subset, '
+        '(b) compiled in but the detector answers "absent", (c) no CPUID, (d) "self-test fails": '
+        'compiled in, the CPU reports the feature, but the --wrap wrapper makes the library\'s own '
+        'start-up self-test call of SHA256_Transform_shani / SHA256_Transform_sse2 / '
+        'CRC32C_Update_SSE42 / crypto_aes_key_expand_aesni fail once (wrong state / wrong value / '
+        'NULL); there the "Disabling HW_..." warning is expected, outputs must still equal the '
+        'references and all other variants, and any later call of an entry point of the disabled '
+        'implementation (AES-CTR included) is the violation fallback-inconsistent:<impl>.  In every '
+        'other variant a "Disabling HW_..." warning is a violation.  '
+        'evaluations = answers judged, summed over variants; distinct = distinct (implementation '
+        'that ran and implementations disabled by a failed self-test, operation, lengths, '
         'alignment, partition shape); all cases count as non-trivial')
+    ctx.cov['selftest_fails_variants'] = {
+        v['name']: {'made_to_fail': v['fails'], 'must_select': '%s/%s/%s' % (
+            v['expect']['sha'], v['expect']['crc'], v['expect']['aes'])}
+        for v in variants if v.get('fails')}
     ctx.cov['sanitizers'] = 'gcc -fsanitize=address,undefined; buffers end at the end of their heap block'
     ctx.assumptions += [
         'ARM paths cannot execute on this host',
+        'a failed self-test is simulated in the harness (first call of the wrapped entry point, '
+        'only if it carries the library\'s self-test vector); the CPU itself is not faulty, so a '
+        'library that ignored the failure without a warning would make those variants inconclusive, '
+        'not violating',
         'the --wrap counters see calls made through the external symbol; '
         'crypto_aesctr_aesni.c reaches the AES-NI rounds through crypto_aes_encrypt_block_aesni_m128i '
         'directly, which is covered by the crypto_aesctr_aesni_stream counter']
